@@ -88,7 +88,9 @@ def snapshot(I, v):
     return v
 
 
-def evaluate_paths(F, cls, f, count_member="num_segments_", preset=None, fix_props=False):
+def evaluate_paths(F, cls, f, count_member="num_segments_", preset=None, fix_props=False, small=None):
+    """small: replay with that many segments (size tests are decided for it; the sizes it does not determine - how many
+    layout entries there are, say - stay open and are enumerated)."""
     wsn = cls + "::Workspace"
     # the cost functors are the class-typed parameters of evaluate() other than the workspace pointer and the executor
     functor_types = {p["ty"].get("n") for p in f["params"][2:5] if p["ty"].get("c") == "record"}
@@ -161,6 +163,20 @@ def evaluate_paths(F, cls, f, count_member="num_segments_", preset=None, fix_pro
         I.opaque_conditions = True
         I.field_assumptions[count_member] = {"positive": True}
         I.case = {"first": False, "last": False}
+        if small is not None:
+            nsym = sp.Symbol(count_member, integer=True, positive=True)
+
+            def size_oracle(c):
+                c = sp.sympify(c)
+                if not any(x.name == count_member for x in c.free_symbols):
+                    return None
+                try:
+                    r = sp.simplify(c.subs({x: small for x in c.free_symbols if x.name == count_member}))
+                except Exception:
+                    return None
+                return True if r == sp.true else False if r == sp.false else None
+            I.case = {"first": True, "last": True, "size": size_oracle}
+            I.no_generic_sizes = True
         I.path_oracle = oracle
         ws = I.make_value("WS", {"c": "record", "n": wsn})
         I.alias_records[wsn] = ws
